@@ -2,7 +2,7 @@
    Statements only; proofs are in Proofs/ClusterProofs.v (and Proofs/SemilatticeFold.v). *)
 From stdpp Require Import gmap.
 From RV Require Import Lib.Hex Model.Crdt Model.ShardState Model.Cluster Proofs.ShardStateProofs
-  Proofs.SemilatticeFold Proofs.ClusterProofs.
+  Proofs.SemilatticeFold Proofs.ClusterProofs Proofs.ServeProofs.
 
 (* Strong eventual consistency, algebraic core: on a class closed under an associative,
    commutative, idempotent merge, folding two sequences with the same SET of elements (any
@@ -54,6 +54,23 @@ Theorem C06_lww_winner : forall (U : stamp -> option lww) l v,
        forall d r', In d l -> reg_of d = Some r' -> stamp_ltb (lw_ts r) (lw_ts r') = false.
 Proof. exact lww_winner_lemma. Qed.
 Print Assumptions C06_lww_winner.
+
+(* What a replica serves to clients equals what its replication state says - closed system:
+   along EVERY run of the cluster in which client commands keep each key to one kind (string
+   keys: SET [NX|XX] / APPEND / DEL; hash keys: HSET / HDEL) and every delivered delta was
+   emitted earlier by some node for that key, at every node and for every key the executor's
+   answer is the materialisation of the replication state, and no remote hash is ever refused. *)
+Theorem C06_serve_eq_state : forall (K : list N -> N) n evs,
+  valid_run K (cluster_init n) [] evs ->
+  let c := (crun (cluster_init n) [] evs).1 in
+  forall i ni, c !! i = Some ni ->
+    (forall k, serve ni k = state_says ni k) /\ n_glue_fail ni = false.
+Proof. exact serve_eq_state_lemma. Qed.
+Print Assumptions C06_serve_eq_state.
+
+Example C06_serve_nonvacuous : valid_run ex_K (cluster_init 3) [] ex_serve_evs.
+Proof. exact ex_serve_valid. Qed.
+Print Assumptions C06_serve_nonvacuous.
 
 (* Known findings: outside the class the property fails on the faithful model. *)
 Theorem C06_expiry_refuted :
